@@ -415,7 +415,7 @@ def c16f(ctx):
             if f.short == 'MetaGrid._full_tile_list':
                 ctx.ok('%s:tile-list-limit' % f.short, 'exempt: bounding box of in-grid tiles (its callers pass tiles that exist in the grid)', f, x)
                 continue
-            ok = lim is not None and unparse(lim).replace('self.grid.', 'self.') == 'self.grid_sizes[%s]' % lvl
+            ok = lim is not None and f.ctext(lim).replace('self.grid.', 'self.') == 'self.grid_sizes[%s]' % f.ctext(x.args[2])
             ctx.check(ok, '%s:tile-list-limit' % f.short, 'the tile list is limited by grid_sizes[%s]' % lvl, f, x,
                       fail='%s builds its tile list with limit %s instead of the grid size of level %s: addresses outside the grid are not None' % (
                           f.short, unparse(lim) if lim is not None else '?', lvl))
